@@ -190,7 +190,7 @@ pub fn run_many(global_seed: u64, base: u64, n: u64) -> DirectSummary {
         };
         let density = 1 + r.below(5);
         // alphabet: the marker, ASCII, and bytes that are not valid UTF-8 on their own
-        let other = |r: &mut Rng| *r.pick(&[b'a', b'b', b'c', 0xFF, 0xC3, 0x80, 0x00]);
+        let other = |r: &mut Rng| *r.pick(&[b'a', b'b', b'c', 0xFF, 0xC3, 0x80, 0x00, b'\r', b'\n']);
         let mut input: Vec<u8> = if long {
             (0..len).map(|i| b"abcdefghijklmnopqrstuvwxyz\xff\xc3 "[(i * 5 + i / 97) % 29]).collect()
         } else {
